@@ -1,26 +1,31 @@
 """C17 — exactly one subcommand is selected and only its settings survive.
 
 Pipeline
- (1) build lean/Jap/Props/C17.lean (theorems over the model lean/Jap/Core/Subcmd.lean: `getSub`,
-     `handle`, `sweep`, `checkReq`, `parseCommon`, the argv action, the loaders of config sources);
- (2) correspondence, three layers, real code in-process vs the Lean driver Drv/Subcmd:
-     (a) *captured calls*: generated parser trees (depth 1-3, 1-4 subcommands per level, required or
-         optional, global options, `--cfg` and default config files at any level, default_env) are
-         parsed through parse_args / parse_string / parse_object / parse_env / parse_path with
-         generated inputs; every call of `_ActionSubCommands.get_subcommands` and every outermost
-         call of `handle_subcommands` made by the real pipeline is recorded (input namespace, flags,
-         the namespaces returned by the sub-parsers' `parse_env`/`get_defaults`, output namespace or
-         error) and replayed through the model; the final result of the parse is compared, keys and
-         values at every level, with the model's `parseCommon` on the namespace the last call saw;
-     (b) *direct calls* of the static methods on synthetic namespaces (null sections, names that are
-         not subcommands, empty names, both values of `single_subcommand` and `fail_no_subcommand`);
-     (c) *whole pipeline*: for trees without default config files the model's `parseArgs`
-         (defaults/environment, command line with config arguments, the subcommand action, then
-         `_parse_common`) is compared with the real `parse_args` result;
- (3) oracle on the real code, independent of the model: a small reference of the selection rule
-     written from the property text evaluates every real result (exactly one subcommand key per
-     level, only its section, complete settings, required -> ArgumentError);
- (4) replay of the repaired defect F15d and of the open findings.
+ (1) regenerate lean/Jap/Gen/SubcmdShape.lean (the anchored statements of get_subcommands, handle_subcommands, the argv
+     action, apply_config, get_defaults, _load_env_vars, apply_parsing_links as the AST prints them) and build
+     lean/Jap/Props/C17.lean: theorems over the model lean/Jap/Core/Subcmd.lean (`getSub`, `handle`, `sweep`, `checkReq`,
+     `parseCommon`, the argv action `argvCall`/`parseArgs`, the loaders `loadCfgArg`/`applyDefaultCfg`) by structural
+     induction on the parser tree, and the `tie_*` theorems (regenerated shape = the statements the model transcribes);
+ (2) correspondence, real code in-process vs the Lean driver Drv/Subcmd:
+     (a) *captured calls*: generated parser trees (depth 1-3, 1-4 subcommands per level, required or optional, global
+         options, `--cfg` and default config files at any level, default_env) are parsed through parse_args /
+         parse_string / parse_object / parse_env / parse_path with generated inputs; every call of
+         `_ActionSubCommands.get_subcommands` and every outermost call of `handle_subcommands` made by the real pipeline
+         is recorded (input namespace, flags, `single_subcommand`, the namespaces returned by the sub-parsers'
+         `parse_env`/`get_defaults`, output namespace or error) and replayed through the model; the final result of the
+         parse is compared, keys and values at every level, with the model's `parseCommon` on the namespace that the last
+         call of the root parser saw;
+     (b) *direct calls* of the static methods on synthetic namespaces (null and empty sections, names that are not
+         subcommands, empty names, both values of `single_subcommand` and `fail_no_subcommand`, all three layer modes),
+         and `get_subcommands` EXHAUSTIVELY over a small scope (7168 cases, warning flag included);
+     (c) *whole pipeline*: for trees without default config files the model's `parseArgs` (defaults/environment, command
+         line with options and config arguments, the subcommand action, `_parse_common`) vs the real `parse_args` result;
+ (3) oracle on the real code, independent of the model: `reference` (written from the property text: sources by
+     precedence, named on argv / named in a source / first with settings, complete settings) judges every real result:
+     exactly one subcommand key per level, only its section, complete settings, required -> ArgumentError; a second
+     reference (`direct_reference`, from the docstrings of the two static methods) judges direct `handle_subcommands` calls;
+     deviations whose signature is an open known finding are reported as KNOWN-FINDING;
+ (4) replay of the repaired defect F15d (fixes/f15d_*.py) and of the open findings' witnesses.
 """
 from __future__ import annotations
 
@@ -38,15 +43,18 @@ from ..lib.common import Ctx, MachineryError, repo_python_path
 MANIFEST = {
     "engine": "Subcmd",
     "technique": "Lean 4 proof by structural induction on the parser tree over a transcription of get_subcommands / handle_subcommands / "
-                 "apply_parsing_links / check_required + differential correspondence on captured and direct calls + independent reference oracle",
+                 "apply_parsing_links / check_required / the argv action + regenerated statement shape (tie theorems) + differential correspondence on "
+                 "captured, direct, exhaustive and whole-pipeline calls + independent reference oracle",
     "text": "Theorems in lean/Jap/Props/C17.lean prove, for parser trees of any depth and any merged configuration, that a successful final "
             "_parse_common stores at every level the chosen subcommand under the subcommand key, its section, and no section of another subcommand, "
             "that the section holds the given values over the sub-parser's environment over its defaults, that the choice is the name written on "
             "the command line, else the name found in the merged sources, else the first subcommand in declaration order that has settings, and that "
-            "an undeterminable required subcommand is an error at any depth while an optional one leaves no key and no section. The model is tied to "
-            "the code by replaying every get_subcommands/handle_subcommands call that real parses make, by direct calls of the static methods on "
-            "synthetic namespaces, and by comparing whole parse results; the property itself is evaluated on the real results by a reference "
-            "written from the property text.",
+            "an undeterminable required subcommand is an error at any depth while an optional one leaves no key and no section; the full statement "
+            "is refuted on witnesses where the code deviates (empty subcommand name; a source that selects on its own before it is merged) and "
+            "proved under the forced decidable hypotheses. The model is tied to the code by regenerating the anchored statements into "
+            "Gen/SubcmdShape (tie theorems), by replaying every get_subcommands/handle_subcommands call that real parses make, by direct and "
+            "exhaustive small-scope calls of the static methods, and by comparing whole parse results; the property itself is evaluated on the real "
+            "results by a reference written from the property text.",
     "level_note": "Trusted: Lean kernel; axioms propext/Quot.sound/Classical.choice only; the correspondence harness and its recorder; argparse "
                   "tokenisation (which subcommand name was written where) and the typed option actions are outside the model; dotted keys are read "
                   "as paths in a tree (C11). Precedence among default config files and environment of different levels is left to C04.",
@@ -701,6 +709,9 @@ def reference(spec, inp):
         # ---- complete settings of this parser
         vals = {}
         env_named_at = [k for k in range(len(path)) if env_names_sub(spec, inp, path[:k], path[k])]
+        # levels at which the environment names ANOTHER subcommand than the one finally selected: the layer of that parser
+        # (its defaults and environment, handled on their own) has already dropped the sections of the others (finding F_EARLY)
+        env_other_at = [k for k in range(len(path)) if env_named_value(spec, inp, path[:k]) not in (None, path[k])]
         for name, dflt in node["opts"]:
             given, lower = [], []   # lower: (level of the source's parser, rank of its kind, value)
             shadowed = False
@@ -717,6 +728,8 @@ def reference(spec, inp):
                     lower.append((len(base), {"env": 3, "envcfg": 2, "dcf": 1}[kind], v))
                     if kind != "env":
                         shadowed = shadowed or any(len(base) <= k for k in env_named_at)
+                        if any(len(base) == k for k in env_other_at):
+                            hints[path + (name,)] = F_EARLY
             if given:
                 vals[name] = {sorted(given, key=lambda x: x[0])[-1][1]}
             elif not lower:
@@ -729,7 +742,7 @@ def reference(spec, inp):
                 # sources of parsers of different levels disagree: their precedence is the subject of C04
                 vals[name] = {v for _, _, v in lower}
             if shadowed and not given:
-                hints[path + (name,)] = F_ENVNAME
+                hints.setdefault(path + (name,), F_ENVNAME)
         sub = node["sub"]
         if not sub:
             checks.append((path, vals, None, None, []))
@@ -806,6 +819,17 @@ def env_names_sub(spec, inp, path, name):
         return False
     node = node_at(spec, path)
     return bool(node["sub"]) and (inp.get("env") or {}).get(env_name(path, node["sub"]["dest"])) == name
+
+
+def env_named_value(spec, inp, path):
+    """the subcommand that the environment variable of the parser at `path` names (None if unset, unread or not a subcommand)"""
+    if not (spec.get("default_env") or inp["kind"] == "env"):
+        return None
+    node = node_at(spec, path)
+    if not node["sub"]:
+        return None
+    v = (inp.get("env") or {}).get(env_name(path, node["sub"]["dest"]))
+    return v if v in [n for n, _ in node["sub"]["choices"]] else None
 
 
 def has_leaf(t):
@@ -1235,10 +1259,12 @@ def run(ctx: Ctx):
                 "judged by the reference and every get_subcommands/handle_subcommands call it makes is replayed through the Lean model; non-trivial "
                 "= a case whose parse reaches a parser with subcommands and either selects one or fails for a required one; distinct by canonical JSON")
     ctx.assumptions = [
-        "argparse tokenisation (which token is the subcommand name, abbreviation matching: finding 14c) is outside the model; generated option names are prefix-free",
+        "argparse tokenisation (which token is the subcommand name; abbreviation matching, DESIGN section 7 row 14c) is outside the model; generated option names are prefix-free, so 14c cannot be met",
         "option values are ints; typed validation is the subject of C02/C06",
-        "the final parse has defaults=True (the default); precedence between default config files and environment of different levels is left to C04",
-        "dotted keys address paths of a tree (C11); config files contain no dotted keys",
+        "the final parse has defaults=True (the default of every parse method)",
+        "precedence between sources of parsers of DIFFERENT levels below the given values (a parent's default config file vs a sub-parser's environment variable or default config file) is left to C04: the reference admits either value",
+        "what get_defaults/_load_env_vars of each parser return (default config files, the parent_parsers context, variable names) are inputs of the model (recorded from the real calls); the oracle judges them from the raw inputs",
+        "dotted keys address paths of a tree (C11); config files contain no dotted keys; no subcommand is called ''",
     ]
     ctx.lean_build(extractors=["subcmd_shape"])
 
@@ -1249,7 +1275,7 @@ def run(ctx: Ctx):
         if "spec" in c:
             cases.append((c["spec"], c["input"], "corpus"))
     n_corpus = len(cases)
-    n_random = ctx.budget(700, 9000) * (2 if ctx.search_boost > 1 else 1)
+    n_random = ctx.budget(1200, 24000) * (2 if ctx.search_boost > 1 else 1)
     spec = None
     for i in range(n_random):
         if spec is None or i % 4 == 0:
@@ -1288,6 +1314,7 @@ def run(ctx: Ctx):
 
     # ---------------- direct calls
     dbad = direct_stage(ctx, stats)
+    dbad += exhaustive_get_stage(ctx, stats)
 
     # ---------------- oracle
     for idx, (spec, inp, origin, real) in enumerate(judged):
@@ -1417,8 +1444,88 @@ def direct_judge(spec, d, out):
     return None
 
 
+def exhaustive_get_stage(ctx, stats):
+    """get_subcommands itself, exhaustively over a small scope: one parser with three subcommands; the subcommand key absent /
+    None / each name / "" / an unknown name; every section absent / None / empty / with a value; both flags; with and without
+    a key prefix.  Result namespace, returned names and the warning are compared with `getSub`."""
+    import itertools
+
+    from jsonargparse import ArgumentParser, Namespace
+    from jsonargparse import _actions
+
+    names = ["a", "b", "c"]
+    root = ArgumentParser(exit_on_error=False, prog="app")
+    holder = ArgumentParser(exit_on_error=False)
+    root.add_subcommands(dest="top").add_subcommand("p", holder)
+    results = {}
+    for required in (True, False):
+        parser = ArgumentParser(exit_on_error=False)
+        sc = parser.add_subcommands(required=required, dest="cmd")
+        for n in names:
+            q = ArgumentParser(exit_on_error=False)
+            q.add_argument("--x", type=int, default=0)
+            sc.add_subcommand(n, q)
+        results[required] = parser
+    dests = ["<absent>", None, "a", "b", "c", "", "zz"]
+    secs = ["<absent>", None, {}, {"x": 1}]
+    get = _actions._ActionSubCommands.get_subcommands
+    reqs, exps = [], []
+    for required, dest, sa, sb, sc_, fail, single, prefixed in itertools.product((True, False), dests, secs, secs, secs, (True, False), (True, False), (False, True)):
+        tree = {}
+        if dest != "<absent>":
+            tree["cmd"] = dest
+        for n, v in zip(names, (sa, sb, sc_)):
+            if v != "<absent>":
+                tree[n] = v
+        cfg = ns_of({"g": 1, "p": tree}) if prefixed else ns_of(tree)
+        if prefixed and not tree:
+            cfg = ns_of({"g": 1, "p": {}})
+        prefix = "p." if prefixed else ""
+        with warnings.catch_warnings(record=True) as wl:
+            warnings.simplefilter("always")
+            ctxm = _actions._ActionSubCommands.not_single_subcommand() if not single else None
+            try:
+                if ctxm:
+                    ctxm.__enter__()
+                r = get(results[required], cfg, prefix, fail)
+                out = {"ok": {"cfg": canon(sub_wire(enc(cfg), prefix)), "names": list(r[0]) if r[0] else [],
+                              "warn": any("Multiple subcommand settings" in str(w.message) for w in wl)}}
+            except Exception as ex:  # noqa: BLE001 - the error class is the observation
+                out = canon_out(err_of(ex))
+            finally:
+                if ctxm:
+                    ctxm.__exit__(None, None, None)
+        reqs.append({"op": "get", "h": {"dest": "cmd", "required": required}, "names": names, "fail": fail, "single": single,
+                     "pre": ["p"] if prefixed else [], "cfg": tree_to_wire_ns(tree)})
+        exps.append(out)
+    answers = model_answers(ctx, [(r, None, "get", None) for r in reqs])
+    bad = 0
+    if answers is not None:
+        for rq, exp, ans in zip(reqs, exps, answers):
+            ctx.count()
+            if "ok" in ans:
+                got = {"ok": {"cfg": canon(ans["ok"]["cfg"]), "names": ans["ok"]["todo"], "warn": ans["ok"]["warn"]}}
+            else:
+                got = canon_out(ans)
+            if not same(got, exp):
+                bad += 1
+                if bad <= 2:
+                    ctx.tie_break("correspondence Subcmd (get_subcommands, exhaustive small scope: model vs jsonargparse) disagrees",
+                                  json.dumps({"request": rq, "real": exp, "model": got}, ensure_ascii=True)[:1900])
+    ctx.extra["exhaustive_get_subcommands"] = {"cases": len(reqs), "disagreements": bad,
+                                               "scope": "3 subcommands; key in {absent, None, a, b, c, '', unknown}; each section in {absent, None, {}, {x:1}}; required x fail x single x prefix"}
+    return bad
+
+
+def tree_to_wire_ns(t):
+    """like tree_to_wire, for trees that are turned into Namespaces directly (an empty dict is an empty namespace)"""
+    if isinstance(t, dict):
+        return {"s": [[k, tree_to_wire_ns(v)] for k, v in t.items()]}
+    return t
+
+
 def direct_stage(ctx, stats):
-    n = ctx.budget(250, 3000) * (2 if ctx.search_boost > 1 else 1)
+    n = ctx.budget(400, 8000) * (2 if ctx.search_boost > 1 else 1)
     reqs = []
     spec = None
     for i in range(n):
